@@ -6,18 +6,17 @@ import LitexModel.Fhdl.Module
 -/
 namespace Litex.C01
 
-mutual
-/-- Legal assignment target whose Migen width equals the width of its printed text: a signal, an in-range
-    slice of a signal (not the signed 1-bit no-slice case), or a `Cat` of such. -/
-def targetOk : Expr → Bool
+/-- A signal, or an in-range slice of a signal (not the signed 1-bit no-slice case). -/
+def leafOk : Expr → Bool
   | .sig _ w _ => decide (0 < w)
   | .slice (.sig _ w s) lo hi => decide (lo < hi) && decide (hi ≤ w) && decide (0 < w) && !(decide (w = 1) && s)
-  | .cat l => targetOkList l
   | _ => false
-def targetOkList : List Expr → Bool
-  | [] => true
-  | e :: es => targetOk e && targetOkList es
-end
+
+/-- Legal assignment target whose Migen width equals the width of its printed text: a signal, a slice of a
+    signal, or a flat `Cat` of such. -/
+def targetOk : Expr → Bool
+  | .cat l => l.all leafOk
+  | e => leafOk e
 
 /-- Assignment `l.eq(r)`: `r` fits in the context `max(len l, selfWidth r)`. -/
 def fitsAssign (ρ : Env) (l r : Expr) : Bool :=
@@ -49,7 +48,7 @@ def fitsCase (ρ : Env) (test : Expr) (items : Items) : Bool :=
   let sg := selfSigned pt && itemsSigned (printItems items)
   let t := evalF ρ test
   fitsP ρ test && fitsV ρ pt W sg && decide (0 < W) && itemsOk items &&
-    inRange (bitsSign test).1 (bitsSign test).2 t &&
+    decide (0 < (bitsSign test).1) && inRange (bitsSign test).1 (bitsSign test).2 t &&
     ((inRange W false t && itemsIn W false items) || (inRange W true t && itemsIn W true items))
 
 mutual
@@ -82,7 +81,7 @@ def sfitsCase (test : Expr) (items : Items) : Bool :=
   let W := max (selfWidth pt) (itemsWidth (printItems items))
   let sg := selfSigned pt && itemsSigned (printItems items)
   sfitsP test && sfitsV pt W sg && decide (0 < W) && itemsOk items &&
-    inRangeB (bitsSign test).1 (bitsSign test).2 (bounds pt) &&
+    decide (0 < (bitsSign test).1) && inRangeB (bitsSign test).1 (bitsSign test).2 (bounds pt) &&
     ((inRangeB W false (bounds pt) && itemsIn W false items) || (inRangeB W true (bounds pt) && itemsIn W true items))
 
 mutual
